@@ -423,10 +423,39 @@ func extToLower(upper bool) extFn {
 			return Str{S: strings.ToLower(s.S)}
 		}
 		ts := in.ts
-		out := make([]*Term, len(s.B))
-		for i, b := range s.B {
-			// model is exact for ASCII; a byte >= 0x80 may start a rune with a
-			// case mapping: require ASCII (fork; the non-ASCII side is unsupported)
+		var out []*Term
+		for i := 0; i < len(s.B); {
+			b := s.B[i]
+			if b.IsConst() && b.C >= 0x80 {
+				// concrete non-ASCII rune: map it natively (all of its bytes must be concrete)
+				j := i
+				var buf []byte
+				for j < len(s.B) && j < i+4 && s.B[j].IsConst() {
+					buf = append(buf, byte(s.B[j].C))
+					j++
+				}
+				r, sz := utf8.DecodeRune(buf)
+				if r == utf8.RuneError && sz <= 1 {
+					// invalid byte: ToLower/ToUpper emit U+FFFD for it
+					for _, c := range []byte(string(utf8.RuneError)) {
+						out = append(out, in.byteConst(c))
+					}
+					i++
+					continue
+				}
+				var m string
+				if upper {
+					m = strings.ToUpper(string(r))
+				} else {
+					m = strings.ToLower(string(r))
+				}
+				for k := 0; k < len(m); k++ {
+					out = append(out, in.byteConst(m[k]))
+				}
+				i += sz
+				continue
+			}
+			// symbolic byte: the model is exact for ASCII only
 			ascii := ts.Cmp(OUlt, b, ts.BV(8, 0x80))
 			if !in.branch(ascii, nil) {
 				in.unsupported("strings.ToLower/ToUpper on symbolic non-ASCII byte")
@@ -436,7 +465,8 @@ func extToLower(upper bool) extFn {
 				lo, hi, d = 'a', 'z', uint64(0x100-32)
 			}
 			isU := ts.And(ts.Cmp(OUle, ts.BV(8, lo), b), ts.Cmp(OUle, b, ts.BV(8, hi)))
-			out[i] = ts.Ite(isU, ts.Bin(OAdd, b, ts.BV(8, d)), b)
+			out = append(out, ts.Ite(isU, ts.Bin(OAdd, b, ts.BV(8, d)), b))
+			i++
 		}
 		return in.strFromBytes(out)
 	}
